@@ -1,6 +1,7 @@
 """C09 — Pauli primitives agree with the Pauli group: correspondence of qecsim.paulitools with Model/Pauli.lean"""
 import itertools
 import json
+import math
 
 import numpy as np
 
@@ -8,7 +9,17 @@ from qv import core
 from qv.core import bits, mat
 
 RULE = ('exhaustive over all Pauli strings / bsf vectors / ordered pairs for n<=N0, all (n,lo,hi) for ipauli with '
-        'n<=N1, all pack lengths 0..L, plus seeded random vectors and matrices up to n=300, call histories with in-place updates of returned arrays, every public function on every argument shape in 7 memory presentations (plain, read-only, strided, reversed, offset, column-major / sliced; arguments unchanged incl. the memory around a view, read-only accepted, results share no memory with arguments or earlier results), ibsf / ipauli as retained sequences judged after full consumption (list, matrix, pairs, held items while advancing, several interleaved iterators), random call histories over all public functions on a pool of retained arrays that are re-used as arguments and updated in place by the caller, dense operators at accumulator-width boundaries up to n=2^20+1 (2^24+3 thorough); a case is non-trivial '
+        'n<=N1, all pack lengths 0..L, plus seeded random vectors and matrices up to n=300, call histories with in-place updates of returned arrays, every public function on every argument shape in 7 memory presentations (plain, read-only, strided, reversed, offset, column-major / sliced; arguments unchanged incl. the memory around a view, read-only accepted, results share no memory with arguments or earlier results), ibsf / ipauli as retained sequences judged after full consumption (list, matrix, pairs, held items while advancing, several interleaved iterators), random call histories over all public functions on a pool of retained arrays that are re-used as arguments and updated in place by the caller, dense operators at accumulator-width boundaries up to n=2^20+1 (2^24+3 thorough); '
+        'HIGH-WEIGHT ipauli / ibsf ranges on n = 9..12 (every range with max weight >= 9 up to a size cap: exact weight, '
+        'two adjacent weights, full ranges; up to 2.7 million items) judged as a stream: count == sum C(n,w) 3^w '
+        '(theorem ipauli_length), duplicate-free (hash set), every item a length-n string with weight in range, weights '
+        'non-decreasing, items at sampled positions (ends, weight-block boundaries, the first change of the qubit '
+        'selection 3^w-1 / 3^w, random) == an independent unranking of the documented order == the model sequence '
+        '(driver op ipauliat; whole sequence for <= 200k items), ibsf == pauli_to_bsf of ipauli item by item; '
+        'bsp over DTYPES x ARGUMENT SHAPES: all four forms (vector.vector, vector.matrix, matrix.vector, matrix.matrix) '
+        'x every ordered pair of dtypes from bool, int8, uint8, int16, int32, uint32, int64 (equal and mixed) x contents '
+        'with a controlled number (0, 1, 2, 3, 4, all) of anticommuting qubits incl. Y-vs-Y style double overlaps, '
+        'n = 1..300, plus bsf_wt / bsf_to_pauli / pack on every dtype; a case is non-trivial '
         'when its operand is not all-identity/all-zero; distinct = distinct protocol lines')
 
 ANTI = {(a, b): (a != 'I' and b != 'I' and a != b) for a in 'IXYZ' for b in 'IXYZ'}
@@ -159,6 +170,8 @@ def run(ctx):
     part_purity(ctx, pt)
     part_generators(ctx, pt)
     part_histories(ctx, pt)
+    part_dtypes(ctx, pt)
+    part_highweight(ctx, pt)
     return ctx.finish(RULE, search=search)
 
 
@@ -696,6 +709,249 @@ def part_histories(ctx, pt):
         P.verify('end of history')
 
 
+# ------------------------------------------------------------------------------------------ dtypes x argument shapes
+# bsf arrays reach bsp with whatever dtype the caller's arithmetic produced (comparisons / logical_xor give bool,
+# packed storage gives uint8, np.mod of int8 data gives int8 ...) and in four argument forms.  Each (form, dtype of a,
+# dtype of b) must be the same function of the VALUES.
+
+DTYPES = [('bool', np.bool_), ('int8', np.int8), ('uint8', np.uint8), ('int16', np.int16), ('int32', np.int32),
+          ('uint32', np.uint32), ('int64', np.int64)]
+SHAPES = ['vector.vector', 'vector.matrix', 'matrix.vector', 'matrix.matrix']
+PAIRS_ANTI = [(a, b) for a in 'XYZ' for b in 'XYZ' if a != b]
+PAIRS_COMM = [(a, b) for a in 'IXYZ' for b in 'IXYZ' if not ANTI[(a, b)]]
+
+
+def pauli_pair(rng, n, k):
+    """two Pauli strings of length n that anticommute on exactly k qubits (k <= n)"""
+    anti = set(rng.sample(range(n), k))
+    ab = [rng.choice(PAIRS_ANTI) if q in anti else rng.choice(PAIRS_COMM) for q in range(n)]
+    return ''.join(x for x, _ in ab), ''.join(y for _, y in ab)
+
+
+def part_dtypes(ctx, pt):
+    rng = ctx.rng
+    sizes = [1, 2, 3, 4, 5, 8, 9, 17, 64, 130, 300]
+    for rep in range(ctx.scale(1, 8)):
+        for shape in SHAPES:
+            for na, da in DTYPES:
+                for nb, db in DTYPES:
+                    for content in ('0', '1', '2', '3', '4', 'all', 'random'):
+                        P = Pure(ctx, 'dtypes')
+                        n = rng.choice(sizes)
+                        k = n if content == 'all' else (None if content == 'random' else min(int(content), n))
+                        ra = 1 if shape.startswith('vector') else rng.randint(1, 4)
+                        rb = 1 if shape.endswith('vector') else rng.randint(1, 4)
+                        if k is None:
+                            A = [rand_pauli(rng, n) for _ in range(ra)]; B = [rand_pauli(rng, n) for _ in range(rb)]
+                        else:
+                            # every row of A against the first operator of B, remaining rows of B random
+                            s0, t0 = pauli_pair(rng, n, k)
+                            A = [s0] + [pauli_pair(rng, n, min(n, rng.choice([0, 1, 2, 3, 4])))[0] for _ in range(ra - 1)]
+                            B = [t0] + [rand_pauli(rng, n) for _ in range(rb - 1)]
+                            if ra > 1:   # all rows of A anticommute with t0 on a controlled number of qubits
+                                A = [s0] + [anti_partner(rng, t0, min(n, rng.choice([0, 1, 2, 3, 4]))) for _ in
+                                            range(ra - 1)]
+                        Ai = np.array([py_to_bsf(p) for p in A]); Bi = np.array([py_to_bsf(p) for p in B])
+                        aval = Ai[0] if shape.startswith('vector') else Ai
+                        bval = Bi[0] if shape.endswith('vector') else Bi
+                        a = aval.astype(da); b = bval.astype(db)
+                        bt = b.T if b.ndim == 2 else b
+                        ctx.count('dtypes.shape', shape); ctx.count('dtypes.pair', na + '.' + nb)
+                        ctx.count('dtypes.anticommuting', content)
+                        desc = 'bsp(<{} {}> {}, <{} {}{}> {})'.format(
+                            na, 'x'.join(map(str, a.shape)), A if a.ndim == 2 else A[0], nb,
+                            'x'.join(map(str, bt.shape)), ' = rows.T' if b.ndim == 2 else '', B if b.ndim == 2 else B[0])
+                        r = P.call(desc[:400], pt.bsp, [a, bt], [a, b])
+                        truth_and_case(ctx, P, 'bsp', [aval, bval], r)
+                        if rep == 0 and shape == 'vector.vector' and content in ('2', 'random') and nb == na:
+                            truth_and_case(ctx, P, 'bsf_wt', [aval], P.call('bsf_wt(<{}> {})'.format(na, A[0])[:200],
+                                                                           pt.bsf_wt, [a], [a]))
+                            truth_and_case(ctx, P, 'bsf_to_pauli', [aval],
+                                           P.call('bsf_to_pauli(<{}> {})'.format(na, A[0])[:200], pt.bsf_to_pauli, [a], [a]))
+                            truth_and_case(ctx, P, 'pack', [aval], P.call('pack(<{}> {})'.format(na, A[0])[:200], pt.pack,
+                                                                         [a], [a]))
+                            M = Ai.astype(da) if Ai.shape[0] > 1 else np.array([py_to_bsf(A[0]), py_to_bsf(B[0])]).astype(da)
+                            Mv = np.array(M, dtype=int)
+                            truth_and_case(ctx, P, 'bsf_wt', [Mv], P.call('bsf_wt(<{}> matrix)'.format(na), pt.bsf_wt, [M], [M]))
+                            truth_and_case(ctx, P, 'bsf_to_pauli', [Mv], P.call('bsf_to_pauli(<{}> matrix)'.format(na),
+                                                                                pt.bsf_to_pauli, [M], [M]))
+                        if P.failed:
+                            return
+
+
+def anti_partner(rng, t, k):
+    """a Pauli string anticommuting with t on exactly k qubits where possible (identity factors of t cannot)"""
+    idx = [q for q, c in enumerate(t) if c != 'I']
+    anti = set(rng.sample(idx, min(k, len(idx))))
+    out = []
+    for q, c in enumerate(t):
+        if q in anti:
+            out.append(rng.choice([x for x in 'XYZ' if x != c]))
+        else:
+            out.append(rng.choice([x for x in 'IXYZ' if not ANTI[(x, c)]]))
+    return ''.join(out)
+
+
+# ------------------------------------------------------------------------------------------ high weights, n = 9..12
+# Full-sequence comparison through `c09 ipauli` needs 4^n strings on the wire; here the sequence is judged as a
+# stream.  count == sum_w C(n,w) 3^w (Props/C09.lean ipauli_length) + duplicate-free + every item in range => complete.
+
+def seq_count(n, lo, hi):
+    return sum(math.comb(n, w) * 3 ** w for w in range(lo, hi + 1))
+
+
+def unrank(n, lo, hi, k):
+    """item k of the documented order, computed directly (no enumeration): weights ascending; within a weight the
+    qubit selections in lexicographic order (itertools.combinations); within a selection the letters in the order of
+    itertools.product('XZY', repeat=w), last factor fastest"""
+    for w in range(lo, hi + 1):
+        block = math.comb(n, w) * 3 ** w
+        if k < block:
+            break
+        k -= block
+    else:
+        return None
+    ci, pi = divmod(k, 3 ** w)
+    qs, q = [], 0
+    for left in range(w, 0, -1):     # lexicographic unranking of a w-combination of range(n)
+        while True:
+            c = math.comb(n - q - 1, left - 1)
+            if ci < c:
+                break
+            ci -= c; q += 1
+        qs.append(q); q += 1
+    out = ['I'] * n
+    for j, q in enumerate(qs):
+        out[q] = 'XZY'[(pi // 3 ** (w - 1 - j)) % 3]
+    return ''.join(out)
+
+
+def sample_positions(rng, n, lo, hi, extra=40):
+    total = seq_count(n, lo, hi)
+    ks = {0, total - 1, total // 2}
+    off = 0
+    for w in range(lo, hi + 1):
+        block = math.comb(n, w) * 3 ** w
+        # first / last of the weight block, the last letters of the first qubit selection and the first of the second
+        ks |= {off, off + block - 1, off + 3 ** w - 1, off + 3 ** w, off + 2 * 3 ** w - 1, off + 2 * 3 ** w,
+               off + block - 3 ** w, off + block - 3 ** w - 1}
+        off += block
+    ks |= {rng.randrange(total) for _ in range(extra)}
+    return sorted(k for k in ks if 0 <= k < total)
+
+
+def judge_stream(n, lo, hi, it, ks=()):
+    """consume an iterator of Pauli strings: (failure description or None, number of items, items at positions ks)"""
+    want = seq_count(n, lo, hi)
+    seen = set()
+    at = {}
+    ks = set(ks)
+    prev = -1
+    count = 0
+    bad = None
+    letters = set('IXYZ')
+    for p in it:
+        if count in ks:
+            at[count] = p
+        if bad is None:
+            w = n - p.count('I') if isinstance(p, str) else -1
+            if not isinstance(p, str) or len(p) != n or not set(p) <= letters:
+                bad = ('item {} is not a Pauli string on {} qubits'.format(count, n), repr(p)[:60])
+            elif not lo <= w <= hi:
+                bad = ('item {} has weight {} outside the requested range'.format(count, w), p)
+            elif w < prev:
+                bad = ('item {} has weight {} after an item of weight {} (not ascending)'.format(count, w, prev), p)
+            elif count >= want:
+                bad = ('more items than Paulis in the weight range', p)
+            prev = max(prev, w)
+            seen.add(p)
+        count += 1
+        if count > want + 10:
+            break
+    if bad is None and len(seen) != count:
+        bad = ('{} of the {} items are repeats'.format(count - len(seen), count), None)
+    if bad is None and count != want:
+        bad = ('yields {} items; there are {} Paulis of weight {}..{} on {} qubits (sum C(n,w) 3^w): {} are never '
+               'yielded'.format(count, want, lo, hi, n, want - count), None)
+    return bad, count, at
+
+
+def highweight_ranges(quick):
+    if quick:
+        return [(9, 9, 9), (9, 8, 9), (9, 0, 9), (10, 9, 9), (10, 10, 10), (10, 9, 10), (11, 11, 11), (12, 12, 12),
+                (12, 0, 3), (11, 1, 2)]
+    out = []
+    for n in (9, 10, 11, 12):
+        for hi in range(9, n + 1):
+            for lo in range(0, hi + 1):
+                if seq_count(n, lo, hi) <= (1200000 if lo < hi - 1 else 2700000):
+                    out.append((n, lo, hi))
+        out += [(n, 0, 3), (n, 2, 4), (n, 8, 8)]
+    return out
+
+
+def part_highweight(ctx, pt):
+    rng = ctx.rng
+    for n, lo, hi in highweight_ranges(ctx.quick()):
+        total = seq_count(n, lo, hi)
+        ks = sample_positions(rng, n, lo, hi)
+        ctx.count('highweight_n', n); ctx.count('highweight_max_weight', hi)
+        inp = {'n_qubits': n, 'min_weight': lo, 'max_weight': hi}
+        try:
+            bad, count, at = judge_stream(n, lo, hi, pt.ipauli(n, lo, hi), ks)
+        except Exception as ex:
+            ctx.monitor_fail('ipauli({}, {}, {}) raised {!r}'.format(n, lo, hi, ex), inp); return
+        ctx.evaluations += count
+        if bad:
+            ctx.monitor_fail('ipauli({}, {}, {}) does not yield every Pauli of the weight range exactly once in ascending '
+                             'weight: {}'.format(n, lo, hi, bad[0]), dict(inp, item=bad[1], n_yielded=count,
+                                                                           n_expected=total))
+            return
+        got = [at.get(k, '-') for k in ks]
+        wantp = [unrank(n, lo, hi, k) for k in ks]
+        if got != wantp:
+            i = next(i for i in range(len(ks)) if got[i] != wantp[i])
+            ctx.monitor_fail('ipauli({}, {}, {}) is not in the documented order (weight, then qubit selection, then XZY '
+                             'letters): position {}'.format(n, lo, hi, ks[i]),
+                             dict(inp, position=ks[i], got=got[i], expected=wantp[i]))
+            return
+        ctx.case('c09 ipauliat {} {} {} {}'.format(n, lo, hi, ','.join(map(str, ks))),
+                 'ok {} {}'.format(count, ' '.join(got)), meta={'via': 'stream'})
+        if total <= 200000:
+            ctx.case('c09 ipauli {} {} {}'.format(n, lo, hi), 'ok ' + ' '.join(pt.ipauli(n, lo, hi)),
+                     meta={'via': 'highweight-full'})
+        # default max_weight on a large n: the top weights are part of the range
+        if lo == hi == n and n <= 10:
+            bad, count, _ = judge_stream(n, n - 1, n, pt.ipauli(n, n - 1))
+            if bad:
+                ctx.monitor_fail('ipauli({}, {}) (default max_weight): {}'.format(n, n - 1, bad[0]),
+                                 {'n_qubits': n, 'min_weight': n - 1, 'max_weight': None, 'n_yielded': count}); return
+        # ibsf: the bsf of the same sequence, item by item (retained, then judged)
+        if total <= ctx.scale(200000, 300000) and hi >= 9 and (not ctx.quick() or (n, lo, hi) != (11, 11, 11)):
+            kept = list(pt.ibsf(n, lo, hi))
+            ctx.evaluations += len(kept)
+            ps = list(pt.ipauli(n, lo, hi))
+            why = None
+            if len(kept) != len(ps):
+                why = 'list(ibsf) has {} items, list(ipauli) {} (there are {} Paulis in the range)'.format(
+                    len(kept), len(ps), total)
+            elif any(getattr(b, 'shape', None) != (2 * n,) for b in kept):
+                why = 'an item of ibsf is not a vector of length 2n'
+            else:
+                M = np.array(kept)
+                codes = np.array(list('IXZY'))[(M[:, :n] != 0) + 2 * (M[:, n:] != 0)]
+                strs = [''.join(r) for r in codes.tolist()]
+                if not np.isin(M, (0, 1)).all() or strs != ps:
+                    i = next((i for i in range(len(ps)) if strs[i] != ps[i]), None)
+                    why = 'item {} of ibsf is {} but item {} of ipauli is {}'.format(i, strs[i] if i is not None else '?',
+                                                                                   i, ps[i] if i is not None else '?')
+            if why:
+                ctx.monitor_fail('ibsf({}, {}, {}) is not pauli_to_bsf of ipauli item by item / does not cover the weight '
+                                 'range: {}'.format(n, lo, hi, why), inp)
+                return
+            del kept, ps
+
+
 def search(m):
     """failing-input search: evaluate the property itself on the real code for the disagreeing op"""
     from qecsim import paulitools as pt
@@ -759,6 +1015,19 @@ def search(m):
         if int(pt.bsf_wt(b if op != 'bsfwt' else rows[0])) != truth:
             return {'what': 'bsf_wt does not count non-identity factors', 'bsf': mat(rows), 'got': int(pt.bsf_wt(b)),
                     'expected': truth}
+    if op in ('ipauli', 'ipauliat') and int(toks[2]) > 8 and int(toks[3]) <= int(toks[4]) <= int(toks[2]):
+        n, lo, hi = int(toks[2]), int(toks[3]), int(toks[4])
+        ks = [int(x) for x in toks[5].split(',')] if op == 'ipauliat' else sample_positions(__import__('random').Random(0),
+                                                                                           n, lo, hi)
+        bad, count, at = judge_stream(n, lo, hi, pt.ipauli(n, lo, hi), ks)
+        if bad:
+            return {'what': 'ipauli({}, {}, {}) is not complete / duplicate-free / weight-ordered: {}'.format(
+                n, lo, hi, bad[0]), 'n': n, 'lo': lo, 'hi': hi, 'n_yielded': count, 'n_expected': seq_count(n, lo, hi)}
+        for k in ks:
+            if at.get(k) != unrank(n, lo, hi, k):
+                return {'what': 'ipauli is not in the documented order', 'n': n, 'lo': lo, 'hi': hi, 'position': k,
+                        'got': at.get(k), 'expected': unrank(n, lo, hi, k)}
+        return None
     if op == 'ipauli':
         n, lo, hi = int(toks[2]), int(toks[3]), int(toks[4])
         if lo <= hi <= n:
